@@ -2,7 +2,7 @@
    (statements only; proofs are in C32Proofs.v).  [A] is any alphabet with a boolean equality: bytes are the
    instance [Ascii.eqb] (C32_bytes_instance) which is the one executed against the C++ code. *)
 From Coq Require Import List Arith Bool Ascii NArith ZArith.
-From C32 Require Import C32Spec C32Model C32Proofs C32Convert.
+From C32 Require Import C32Spec C32Model C32Proofs C32Convert C32ConvertSpec C32Grammar.
 Import ListNotations.
 
 Definition EqDec (A : Type) (eqb : A -> A -> bool) : Prop := forall a b, eqb a b = true <-> a = b.
@@ -79,3 +79,47 @@ Theorem C32_convert_digits : forall ds, ds <> [] -> Forall is_dec_digit ds ->
   convert_double ds = Some (Finite false (dval 0%N ds) 10%N 0%Z).
 Proof. exact convert_digits. Qed.
 Print Assumptions C32_convert_digits.
+
+(* convert<double> accepts exactly the complete numeric strings: the recogniser accepts s iff the WHOLE of s is derived
+   by the grammar of C32ConvertSpec.v (white space* sign? (decimal | hexadecimal | inf | infinity | nan | nan(...))),
+   for all byte strings *)
+Theorem C32_convert_grammar : forall s, convert_double s <> None <-> numeric s.
+Proof. exact convert_grammar. Qed.
+Print Assumptions C32_convert_grammar.
+
+(* nothing may follow a number: a numeric string followed by a character that cannot occur inside a number (anything
+   but a letter, a digit, '_' '.' '+' '-' '(' ')'), then by anything, is rejected; in particular trailing white space *)
+Theorem C32_convert_trailing_garbage_rejected : forall s a t, numeric s -> ~ numchar a -> convert_double (s ++ a :: t) = None.
+Proof. exact trailing_rejected. Qed.
+Print Assumptions C32_convert_trailing_garbage_rejected.
+
+Theorem C32_convert_trailing_space_rejected : forall s a t, numeric s -> is_ws a -> convert_double (s ++ a :: t) = None.
+Proof. exact trailing_space_rejected. Qed.
+Print Assumptions C32_convert_trailing_space_rejected.
+
+(* ... and returns their value: a decimal literal  ws* sign? i[.f][e sign? x]  is (-1)^neg * (the decimal number of the digits
+   i f) * 10^(x - |f|), as the exact triple (neg, mantissa, exponent) that the tie turns into the correctly rounded double *)
+Theorem C32_convert_decimal_value : forall ws sg m ds k e x,
+  Forall is_ws ws -> opt_sign sg -> dec_mant m ds k -> dec_exp e x ->
+  convert_double (ws ++ sg ++ m ++ e) = Some (Finite (sign_neg sg) (dec_value 0%N ds) 10%N (x - Z.of_nat k)%Z).
+Proof. exact decimal_value. Qed.
+Print Assumptions C32_convert_decimal_value.
+
+(* a hexadecimal literal  ws* sign? 0x i[.f][p sign? y]  is (-1)^neg * (the hexadecimal number of the digits i f) * 2^(y - 4|f|) *)
+Theorem C32_convert_hexadecimal_value : forall ws sg z x m ds k e y,
+  Forall is_ws ws -> opt_sign sg -> chr z = 48%N -> letter 120 x -> hex_mant m ds k -> bin_exp e y ->
+  convert_double (ws ++ sg ++ z :: x :: m ++ e) = Some (Finite (sign_neg sg) (hex_value 0%N ds) 2%N (y - 4 * Z.of_nat k)%Z).
+Proof. exact hexadecimal_value. Qed.
+Print Assumptions C32_convert_hexadecimal_value.
+
+(* the grammar is the intended one on familiar strings (decided through C32_convert_grammar by computation) *)
+From Coq Require Import String.
+Local Open Scope string_scope.
+Theorem C32_convert_grammar_examples :
+  let S := String.list_ascii_of_string in
+  numeric (S " -1.5e+3") /\ numeric (S "1.") /\ numeric (S ".5E2") /\ numeric (S "0x1.8p-1") /\ numeric (S "+INF") /\
+  numeric (S "-Infinity") /\ numeric (S "nan(a_1)") /\ numeric (S "0") /\
+  ~ numeric (S "") /\ ~ numeric (S ".") /\ ~ numeric (S "1e") /\ ~ numeric (S "1.5 ") /\ ~ numeric (S "- 1") /\ ~ numeric (S "0x") /\
+  ~ numeric (S "1.5f") /\ ~ numeric (S "1,5") /\ ~ numeric (S "infinit") /\ ~ numeric (S "nan(") /\ ~ numeric (S "1 2") /\ ~ numeric (S "--1").
+Proof. exact grammar_examples. Qed.
+Print Assumptions C32_convert_grammar_examples.
